@@ -16,7 +16,8 @@ RULES = [
 
 UNIT = dict(
     name="reader_append",
-    props=["C01", "C09", "C05"],
+    props=["C01", "C09", "C05", "C04"],
+    implicit_props=["C01", "C09", "C05"],  # the properties every obligation of the unit counts for; the others only through labelled clauses
     features=["allocator_api"],
     uses=["std::collections::HashMap", "vstd::std_specs::hash::*"],
     prelude=["core_types.rs", "str_ext.rs", "hashmap_ext.rs", "engine.rs"],
